@@ -436,7 +436,10 @@ fn withinvar(sample: ArrayView3<f32>) -> (Array1<f32>, Array1<f32>) {
             let data_p = sample.slice(s![.., .., param_idx]);
 
             // chain means => shape (2c,)
-            let chain_means = data_p.mean_axis(Axis(1)).unwrap();
+            let chain_means: Array1<f32> = data_p
+                .axis_iter(Axis(0))
+                .map(|row| (row.iter().map(|v| *v as f64).sum::<f64>() / n as f64) as f32)
+                .collect();
             let overall_mean = chain_means.mean().unwrap();
 
             // B => between chain var
@@ -585,7 +588,9 @@ fn autocov_fft(sample: ArrayView2<f32>) -> Array2<f32> {
         .axis_iter(Axis(1))
         .into_par_iter()
         .map(|traj| {
-            let traj_mean = traj.sum() / traj.len() as f32;
+            // (accumulate in f64: an f32 running sum of thousands of draws loses the mean of
+            // data whose offset is large compared with its spread)
+            let traj_mean = (traj.iter().map(|v| *v as f64).sum::<f64>() / traj.len() as f64) as f32;
             let mut x: Vec<Complex<f32>> = traj
                 .iter()
                 .map(|xi| Complex {
@@ -635,7 +640,8 @@ fn autocov_bf(data: ArrayView2<f32>) -> Array2<f32> {
         .enumerate() // get (col_index, col_view_mut)
         .for_each(|(col_idx, mut out_col)| {
             let col_data = data.column(col_idx);
-            let col_data = col_data.to_owned() - col_data.mean().unwrap();
+            let col_mean = (col_data.iter().map(|v| *v as f64).sum::<f64>() / n as f64) as f32;
+            let col_data = col_data.to_owned() - col_mean;
 
             // For each lag, compute sum_{t=0..(n-lag-1)} [ data[t, col] * data[t + lag, col] ]
             for lag in 0..n {
